@@ -566,6 +566,20 @@ def mem_pair_corpus():
     return out
 
 
+def tuck_corpus():
+    """a value computed from fresh operands (none of them a word of the initial stack) and tucked under untouched words of the initial
+    stack with SWAPn .. SWAP1, alone or twice: the stack need is the kept words plus the operands in flight"""
+    vals = ["PUSH1 0x1 CALLVALUE ADD", "ADDRESS PUSH1 0x1 EQ", "CALLVALUE ADDRESS ADD", "PUSH1 0x2 CALLER MUL", "CALLER CALLVALUE ADDRESS ADDMOD",
+            "CALLVALUE ISZERO", "PUSH1 0x0 MLOAD PUSH1 0x1 ADD", "CALLER PUSH1 0x3 SUB"]
+    tucks = ["SWAP1", "SWAP2 SWAP1", "SWAP3 SWAP2 SWAP1", "SWAP4 SWAP3 SWAP2 SWAP1", "SWAP2", "SWAP1 SWAP2"]
+    out = []
+    for v in vals:
+        for t in tucks:
+            out.append("%s %s" % (v, t))
+            out.append("%s %s %s SWAP1" % (v, t, vals[0]))
+    return out
+
+
 def mapping_corpus():
     """the shape of `mapping[key] = v` and `mapping[key]`: a word that comes from storage, memory or the environment is written to
     memory, the written range is hashed, and the hash is the key of a storage access or the address of another memory access: memory
